@@ -18,7 +18,7 @@ CFG = {'scale_exponents': [-60, -40, -30, -27, -10, -8],   # the membership orac
             "Lean validity spec, non-simple line strings) are SKIPped and counted; unary_union collections that are NOT consistently wound (about 1 in 12 "
             "of the polygon collections, every member with a direction of its own, and four corpus lines) are outside the domain too but are evaluated: glue "
             "correspondence as usual, verdict always PASS, tags `mixed … region=fill-rule|other covers=… vs-fold=…` record what the real code does. "
-            "A case is distinct by its input text; cases with two empty operands / fewer than two union members are tagged triv.",
+            "A case is distinct by its input text; cases with two empty operands / fewer than two union members are tagged triv. Exact similarities place a quarter of the cases at offsets up to 2^30 (round 10).",
     "trusted_base": [
         "modelled, not verified: the overlay engine i_overlay — a parameter of the model with the assumed specification EngineSpec "
         "(GeoModel/BoolSpec.lean): region = rule(fill(subject), fill(clip)) off the input boundaries, output shapes outer-first / outer clockwise / "
